@@ -885,7 +885,24 @@ func (e *Engine) unop(st *State, f *Frame, in *ssa.UnOp) ([]*State, bool) {
 			unm("neg of %T", x)
 		}
 	case token.ARROW:
-		unm("channel receive")
+		// only what start-up signalling needs: a receive from a closed channel yields the zero value
+		// at once; a receive that would wait for another goroutine is outside the model
+		ch, _ := x.(ChanV)
+		closed := false
+		if ch.obj != 0 {
+			if av, ok := st.heap.objs[ch.obj].(*ArrayV); ok && len(av.e) == 1 {
+				closed = true
+			}
+		}
+		if !closed {
+			unm("channel receive that would block")
+		}
+		elem := in.X.Type().Underlying().(*types.Chan).Elem()
+		if in.CommaOk {
+			f.regs[in] = TupleV{zero(elem), tFalse}
+		} else {
+			f.regs[in] = zero(elem)
+		}
 	case token.XOR:
 		t := x.(*Term)
 		if c, ok := t.ConstInt(); ok {
